@@ -145,7 +145,7 @@ std::vector<std::string> fields(const std::string& s)
 
 std::string run_case(const std::vector<std::string>& w)
 {
-   int flags = 0, width = 80;
+   int flags = 0, width = 80, again = 0;
    std::vector<std::string> cmds, argToks;
    std::vector<int> argOwner;                       // -1: main handler, else index of the sub-group
    struct Group { std::string keyspec; int flags; std::string desc; };
@@ -157,6 +157,7 @@ std::string run_case(const std::vector<std::string>& w)
       if (tok.rfind("f=", 0) == 0) flags = std::stoi(tok.substr(2));
       else if (tok.rfind("w=", 0) == 0) width = std::stoi(tok.substr(2));
       else if (tok.rfind("c=", 0) == 0) cmds = vf::split(tok.substr(2), ',');
+      else if (tok.rfind("again=", 0) == 0) again = std::stoi(tok.substr(6));   // print the usage n more times
       else if (tok.rfind("a:", 0) == 0) { argToks.push_back(tok); argOwner.push_back(static_cast<int>(groups.size()) - 1); }
       else if (tok.rfind("g:", 0) == 0)
       {
@@ -255,6 +256,8 @@ std::string run_case(const std::vector<std::string>& w)
    try
    {
       h->evalArguments(static_cast<int>(words.size()), argv.data());
+      // the same object prints its usage again (what Handler::usage() writes without usage texts)
+      for (int k = 0; k < again; ++k) out << "Usage:" << std::endl << *h << std::endl;
       outcome = "ok";
    } catch (const std::exception& e)
    {
